@@ -180,7 +180,10 @@ CHECKS["C13"] = dict(
           "or 3 attempts; every event log is validated by TLC against the same monitor: DISCONNECTED before the next attempt, delays "
           "positive, non-decreasing and capped, reads only on the current link, CONNECTED plus a delivered probe frame once the gateway "
           "has accepted for 30 s and every frame fed on the healthy current link is delivered, heartbeat alive, no spinning read loop. "
-          "The TCP event logs (timestamps, link numbers, feeds) are in addition replayed through the model itself (Trace_ClientModel: hidden "
+          "The serial client is a variant of the model (CfgWrite: a configuration write inside the connect attempt that may fail, after which the port is "
+          "shut and the attempt retried; its first run found a leaked port, since repaired), checked in two more configurations and exercised by "
+          "sessions whose first 1..5 configuration writes fail. "
+          "The event logs (timestamps, link numbers, feeds) are in addition replayed through the model itself (Trace_ClientModel: hidden "
           "program counters, wake-up times and lock inferred by TLC); a log that is no behaviour of N2KClient is reported as DRIFT, "
           "which says the model no longer describes the code (not a verdict on the property)."),
     note=("Trusted: TLC; the virtual-time loop (Python 3.12 asyncio internals) with real StreamReader and fake writer; liveness is "
@@ -196,7 +199,8 @@ CHECKS["C14"] = dict(
           "no equal consecutive notifications, notifications match the state, link shut and no delivery once close() returned, no "
           "task left), ClosedFinal and AllShut. The four real clients run on the virtual-time loop with close() issued at every loop "
           "step and at fine-grained times of four session shapes (accept at once, refuse first, open pending 2 s, refuse then "
-          "pending), followed by connect() and send(), with status callbacks that succeed, raise, suspend always or only on "
+          "pending; for the serial client also three shapes whose configuration write fails in every attempt - one of them found a port "
+          "left open after close(), since repaired), followed by connect() and send(), with status callbacks that succeed, raise, suspend always or only on "
           "CONNECTED; fault sessions with raising / suspending callbacks cover the notification clauses, and sessions in which a "
           "failing send triggers the reconnect during which close() arrives; every event log is validated by TLC against the monitor, "
           "and the accept-shape logs are replayed through the model itself (Trace_ClientModel; DRIFT when a log is no behaviour of it)."),
